@@ -2,7 +2,10 @@ import Mimium.Props.C13
 import Mimium.Proofs.ParserLoops
 import Mimium.Gen.ParserLoops
 import Mimium.Proofs.Occurs
+import Mimium.Proofs.OccursSeq
+import Mimium.Proofs.TypeRecDetect
 import Mimium.Gen.TypingFacts
+import Mimium.Gen.ParentWriters
 /-!
 # C04 — front end and compile entry points are total on arbitrary text
 
@@ -39,7 +42,30 @@ PROVED here (all inputs, no bounds; axioms ⊆ {propext, Classical.choice, Quot.
   depth ≤ 2 over `?0`, `?1` as a program that makes the real checker unify `?0` with `t`; the model (with the quirk) predicts
   `Circular …` diagnostic vs binding, the harness observes it (and that every cyclic binding let through ends in a stack overflow).
 
-NOT proved (decided by the correspondence run of `tools/props/c04.py`): that the Rust grammar functions terminate as a whole
+* The REPAIRED occurs check (`cls(arg) || cls(ret)`, /repo fa2b0e3; `Model/OccursSeq.lean`, `Proofs/Occurs{Sound,Bound,Seq}.lean`):
+  `C04_occur_check_sound` (on every store, an answer `false`/`true` of the `||` form means `v` is unreachable/reachable from `t`
+  through `vars` and parent pointers), `C04_bind_preserves_acyclic` / `C04_bindVar_preserves_acyclic` (a binding that passed the
+  check never creates a cycle: ranking argument), `C04_occur_check_fuel_bound` (explicit bound: ≤ `size t + total σ` nested
+  calls on an acyclic store; `get_root` ≤ one per entry), and over ALL histories `C04_occurs_check_terminates`: for every list
+  of requests — calls of `unify_types` / `unify_types_args` on arbitrary types (bound variables are replaced by their roots, as
+  `get_root` does; variable-variable links included) and `extend_record_with_field`, i.e. all 13 statements of /repo that assign
+  a `parent` (`C04_parent_writers_pinned`, re-counted from the source by the translator) — processed from the empty store, no
+  `get_root`/`occur_check` runs out of fuel `fuelBound reqs = (n+1)(m+2n)+1`, and every intermediate store is acyclic;
+  `C04_run_independent_of_fuel`; `C04_occur_check_total_on_reachable_stores` (the statement that
+  `C04_occur_check_counterexample` refutes for `&&` holds for `||`).
+* `Model/TypeRec.lean`: `C04_substitute_type_terminates` (returns within `size t + total σ` calls on acyclic stores, hence on all
+  stores built with `||`), `C04_substitute_type_diverges_on_cycle`, `C04_substitute_type_counterexample` (cause of finding T05:
+  `fn{a` = `fn a(){ a }` binds `?0 := () -> ?0` under `&&`; closed by fa2b0e3); `C04_resolve_type_alias_total_partial`
+  (returns within `t.size + atotal env` calls if the alias graph THROUGH the name fallback is acyclic),
+  `C04_resolve_type_alias_counterexample` (finding T21, open: `type alias A = A` is flagged by the cycle detector but stays
+  registered; `mod m { type alias A = A }` is not even flagged, the detector ignores the fallback; any use of `A` diverges),
+  `C04_alias_detector_complete` (the detector terminates and is complete for the graph it looks at: dropping the flagged
+  aliases would make `resolve_type_alias` total when names are looked up as written).
+  These two models are hand ports tied to the code only by their witnesses (replayed by every check run: `corpus/C04/seeds.txt`).
+
+NOT proved (decided by the correspondence run of `tools/props/c04.py`): that the request sequences of `Model/OccursSeq.lean`
+are all the type checker does to the store beyond the pinned inventory of `parent` writers (the structural arms of
+`unify_types` are read off the source, not modelled); that the Rust grammar functions terminate as a whole
 (mutual recursion between the grammar functions is not modelled; each loop is proved to terminate GIVEN that the calls in its
 body return), absence of panics, lowering, type inference, MIR generation and both back ends.  Those are exercised under
 `catch_unwind` + wall clock + bounded stack in child processes on exhaustive token sequences and mutated corpus texts.
@@ -179,6 +205,226 @@ theorem C04_occur_check_counterexample :
     rw [(occ_diverges 2 (by decide) F).1] at this
     cases this
 
+/-! ## The repaired (`||`) occurs check: sound, keeps the store acyclic, and therefore never diverges on a store the checker
+built itself — for ALL sequences of requests (`Model/OccursSeq.lean`: every place of /repo that writes a `parent` pointer) -/
+
+open Mimium.Occurs in
+/-- the `||` occurs check decides reachability, on EVERY store (cyclic or not), whenever it returns: `false` ⇒ `v` cannot be
+reached from `t` through `vars` and parent pointers, `true` ⇒ it can. (For the `&&` form the first half is false:
+`C04_occur_check_counterexample`.) -/
+theorem C04_occur_check_sound (σ : Store) (v fuel : Nat) (t : Ty) :
+    (occ σ false v fuel t = some false → ¬ Reach σ v t) ∧ (occ σ false v fuel t = some true → Reach σ v t) :=
+  ⟨occ_sound_reach σ v fuel t, occ_complete σ v fuel t⟩
+
+open Mimium.Occurs in
+/-- a binding that passed the `||` occurs check never creates a cycle. (The statement asked for also assumes
+`parent σ v = none`, which `get_root` guarantees in `unify_types`; it is not needed: an older binding of `v` is shadowed.) -/
+theorem C04_bind_preserves_acyclic (σ : Store) (v fuel : Nat) (t : Ty) (h : Acyclic σ)
+    (hocc : occ σ false v fuel t = some false) : Acyclic ((v, t) :: σ) :=
+  acyclic_cons σ v t h (occ_sound σ v fuel t hocc)
+
+open Mimium.Occurs in
+/-- the same for the binding step as a whole: whatever `bindVar · false` answers on an acyclic store, the store it leaves is acyclic -/
+theorem C04_bindVar_preserves_acyclic (σ σ' : Store) (v fuel : Nat) (t : Ty) (h : Acyclic σ)
+    (hb : bindVar σ false fuel v t = some (some σ')) : Acyclic σ' := by
+  unfold bindVar at hb
+  cases ho : occ σ false v fuel t with
+  | none => simp [ho] at hb
+  | some b =>
+    cases b with
+    | true => simp [ho] at hb
+    | false =>
+      simp only [ho, Option.some.injEq] at hb
+      subst hb
+      exact C04_bind_preserves_acyclic σ v fuel t h ho
+
+open Mimium.Occurs in
+/-- EXPLICIT fuel bound (strengthens `C04_occur_check_total_partial`): on an acyclic store `occur_check(id1, t)` nests at most
+`size t + total σ` calls (constructors of `t` plus constructors of all parents), with either operator; `get_root` follows at
+most one pointer per entry. -/
+theorem C04_occur_check_fuel_bound (σ : Store) (h : Acyclic σ) (andQuirk : Bool) (id1 : Nat) (t : Ty) (fuel : Nat) :
+    (size t + total σ ≤ fuel → ∃ b, occ σ andQuirk id1 fuel t = some b) ∧
+    (σ.length + 1 ≤ fuel → ∃ r, root σ fuel t = some r) :=
+  ⟨occ_total_bound σ h andQuirk id1 t fuel, root_total_bound σ h t fuel⟩
+
+open Mimium.Occurs in
+/-- TERMINATION over all histories. For EVERY list of requests (calls of `unify_types` / `unify_types_args` with arbitrary
+types — an already-bound variable is replaced by its root first, as `get_root` does — and `extend_record_with_field`),
+processed from the empty store with the `||` occurs check and any fuel ≥ `fuelBound reqs`
+(`= (n + 1) * (m + 2 n) + 1` for `n` requests over types of ≤ `m` constructors):
+no `get_root` and no `occur_check` runs out of fuel (the run returns the list of all intermediate stores), and every
+intermediate store is acyclic, has at most `n` entries of at most `m + 2 n` constructors, so that every further
+`occur_check(id1, t)` on it returns within `size t + total σ ≤ size t + n * (m + 2 n)` nested calls. -/
+theorem C04_occurs_check_terminates (reqs : List Req) (fuel : Nat) (hf : fuelBound reqs ≤ fuel) :
+    ∃ trace, run fuel [] reqs = some trace ∧ trace.length = reqs.length ∧
+      ∀ σ ∈ trace, Acyclic σ ∧ σ.length ≤ reqs.length ∧ total σ ≤ reqs.length * (maxReq reqs + 2 * reqs.length) ∧
+        ∀ (id1 : Nat) (t : Ty) (f : Nat), size t + total σ ≤ f → ∃ b, occ σ false id1 f t = some b := by
+  obtain ⟨tr, hrun, hlen, hall⟩ := run_total reqs fuel hf
+  refine ⟨tr, hrun, hlen, fun σ hσ => ?_⟩
+  have hinv := hall σ hσ
+  exact ⟨hinv.1, hinv.2.1, hinv.total_le, fun id1 t f hfl => occ_total_bound σ hinv.1 false id1 t f hfl⟩
+
+open Mimium.Occurs in
+/-- the fuel of the model is not observable: every fuel ≥ `fuelBound reqs` gives the same list of stores -/
+theorem C04_run_independent_of_fuel (reqs : List Req) (fuel : Nat) (hf : fuelBound reqs ≤ fuel) :
+    run fuel [] reqs = run (fuelBound reqs) [] reqs := by
+  obtain ⟨tr, hrun, _⟩ := run_total reqs (fuelBound reqs) (Nat.le_refl _)
+  rw [hrun]
+  exact run_fuel_le _ _ hf reqs [] tr hrun
+
+open Mimium.Occurs in
+/-- CONCLUSION (the statement that `C04_occur_check_counterexample` refutes for the `&&` form): on every store the checker
+can build with the `||` form, `occur_check` answers for every variable and every type. -/
+theorem C04_occur_check_total_on_reachable_stores (reqs : List Req) (fuel : Nat) (trace : List Store)
+    (h : run fuel [] reqs = some trace) (σ : Store) (hσ : σ ∈ trace) (id1 : Nat) (t : Ty) :
+    ∃ F b, ∀ f, F ≤ f → occ σ false id1 f t = some b := by
+  have hmax : run (max fuel (fuelBound reqs)) [] reqs = some trace := run_fuel_le _ _ (Nat.le_max_left _ _) reqs [] trace h
+  obtain ⟨tr, hrun, _, hall⟩ := C04_occurs_check_terminates reqs (max fuel (fuelBound reqs)) (Nat.le_max_right _ _)
+  rw [hmax] at hrun
+  cases hrun
+  exact answers_of_acyclic σ false id1 (hall σ hσ).1 t
+
+open Mimium.Occurs in
+/-- non-vacuity of `C04_bind_preserves_acyclic` / `C04_occur_check_sound`: `?1 := [?0]` on the store `?0 := (?2) -> number`
+passes the check and is bound; `?2 := (?1, number)` is then refused (`?2` is reachable: `?1 → ?0 → ?2`). -/
+example : bindVar [(0, .fn (.var 2) .other)] false 9 1 (.unary (.var 0)) = some (some [(1, .unary (.var 0)), (0, .fn (.var 2) .other)]) ∧
+    bindVar [(1, .unary (.var 0)), (0, .fn (.var 2) .other)] false 9 2 (.anyOf (.var 1) .other) = some none := by decide
+
+open Mimium.Occurs in
+/-- non-vacuity of the `Acyclic` hypotheses: the two-entry store of the example above is acyclic — by the theorem itself,
+applied twice from the empty store -/
+example : Acyclic [(1, .unary (.var 0)), (0, .fn (.var 2) .other)] :=
+  C04_bind_preserves_acyclic _ 1 9 _ (C04_bind_preserves_acyclic [] 0 9 (.fn (.var 2) .other) acyclic_nil (by decide)) (by decide)
+
+open Mimium.Occurs in
+/-- non-vacuity of `C04_occurs_check_terminates`: six requests (a binding, a refused circular binding through an already-bound
+variable, a variable-variable link, a request on two variables with the same root, a record extension, a binding of the
+extension's variable); `fuelBound = 106`; the run with fuel 3 runs out, fuel 4 already gives the final answer. -/
+example :
+    let reqs : List Req := [.unify (.var 0) (.fn (.var 1) .other), .unify (.anyOf (.var 0) .other) (.var 1),
+      .unify (.var 2) (.var 1), .unify (.var 1) (.var 0), .extend 0 3, .unify (.var 3) (.unary (.var 2))]
+    fuelBound reqs = 106 ∧ run 3 [] reqs = none ∧ run 4 [] reqs = run 106 [] reqs ∧
+    (run 106 [] reqs).map (fun tr => tr.map List.length) = some [1, 1, 2, 2, 3, 4] ∧
+    (run 106 [] reqs).bind List.getLast? = some [(3, .unary (.var 2)), (0, .anyOf (.fn (.var 1) .other) (.var 3)),
+      (1, .var 2), (0, .fn (.var 1) .other)] := by decide +kernel
+
+/-! ## Two more unbounded recursions of the type checker (`Model/TypeRec.lean`): `substitute_type` (finding T05, closed by
+/repo fa2b0e3) and `resolve_type_alias` (finding T21, open) -/
+
+open Mimium.Occurs Mimium.TypeRec in
+/-- `InferContext::substitute_type` (follows every parent pointer, no cycle check) returns on every acyclic store within
+`size t + total σ` nested calls — in particular on every store the checker builds with the `||` occurs check, for ALL
+request sequences. -/
+theorem C04_substitute_type_terminates :
+    (∀ (σ : Store), Acyclic σ → ∀ (t : Ty) (fuel : Nat), size t + total σ ≤ fuel → ∃ r, subst σ fuel t = some r) ∧
+    (∀ (reqs : List Req) (fuel : Nat) (trace : List Store), run fuel [] reqs = some trace → ∀ σ ∈ trace,
+      ∀ (t : Ty) (f : Nat), size t + total σ ≤ f → ∃ r, subst σ f t = some r) := by
+  refine ⟨fun σ h t fuel hf => subst_total_bound σ h t fuel hf, ?_⟩
+  intro reqs fuel trace h σ hσ t f hf
+  have hmax : run (max fuel (fuelBound reqs)) [] reqs = some trace := run_fuel_le _ _ (Nat.le_max_left _ _) reqs [] trace h
+  obtain ⟨tr, hrun, _, hall⟩ := C04_occurs_check_terminates reqs (max fuel (fuelBound reqs)) (Nat.le_max_right _ _)
+  rw [hmax] at hrun
+  cases hrun
+  exact subst_total_bound σ (hall σ hσ).1 t f hf
+
+open Mimium.Occurs Mimium.TypeRec in
+/-- conversely `substitute_type(t)` never returns when a variable that lies on a cycle can be reached from `t` -/
+theorem C04_substitute_type_diverges_on_cycle (σ : Store) (t p : Ty) (v : Nat) (hreach : Reach σ v t)
+    (hp : parent σ v = some p) (hcyc : Reach σ v p) : ∀ fuel, subst σ fuel t = none := by
+  intro fuel
+  obtain ⟨w, hw, hr⟩ := hreach
+  refine subst_none_of_cycle σ fuel t w v hw hr ?_ (by simp [hp])
+  intro p' hp'
+  rw [hp] at hp'
+  cases hp'
+  exact hcyc
+
+open Mimium.Occurs Mimium.TypeRec in
+/-- the CAUSE of finding T05 (`fn{a`, recovered by the parser as the well-formed `fn a(){ a }`; both overflow the stack on
+/repo 1281f69 and neither does from fa2b0e3 on): `letrec a = || a` asks for `?0 := () -> ?0`; the `&&` occurs check
+answers `cls(()) && cls(?0) = false`, the binding is made, and `substitute_type(?0)` then returns for NO fuel; with `||`
+the binding is refused. -/
+theorem C04_substitute_type_counterexample :
+    bindVar [] true 8 0 (.fn .other (.var 0)) = some (some [(0, .fn .other (.var 0))]) ∧
+    bindVar [] false 8 0 (.fn .other (.var 0)) = some none ∧
+    (∀ fuel, subst [(0, .fn .other (.var 0))] fuel (.var 0) = none) ∧
+    ¬ (∀ (σ : Store) (t : Ty), ∃ F r, ∀ fuel, F ≤ fuel → subst σ fuel t = some r) := by
+  have hdiv : ∀ fuel, subst [(0, .fn .other (.var 0))] fuel (.var 0) = none :=
+    C04_substitute_type_diverges_on_cycle [(0, .fn .other (.var 0))] (.var 0) (.fn .other (.var 0)) 0
+      ⟨0, by simp [vars], .refl 0⟩ (by simp [parent]) ⟨0, by simp [vars], .refl 0⟩
+  refine ⟨by decide, by decide, hdiv, ?_⟩
+  intro h
+  obtain ⟨F, r, hF⟩ := h [(0, .fn .other (.var 0))] (.var 0)
+  have := hF F (Nat.le_refl _)
+  rw [hdiv F] at this
+  cases this
+
+open Mimium.TypeRec in
+/-- PARTIAL (what holds of `resolve_type_alias`; the full statement `∀ fb env t, ∃ F r, ∀ fuel ≥ F, resolve fb env fuel t =
+some r` is refuted below): if the alias graph — an alias points to the keys under which the names of its target are looked
+up, i.e. AFTER `resolve_type_alias_symbol_fallback` — has no cycle, `resolve_type_alias(t)` returns within
+`t.size + atotal env` nested calls. -/
+theorem C04_resolve_type_alias_total_partial (fb : Nat → Nat) (env : AEnv) (h : AcyclicA fb env) (t : ATy) (fuel : Nat)
+    (hf : t.size + atotal env ≤ fuel) : ∃ r, resolve fb env fuel t = some r :=
+  resolve_total_bound fb env h t fuel hf
+
+open Mimium.TypeRec in
+/-- NEGATION on two witnesses (finding T21; `type alias=Gain fn(f:Gain{` is recovered as `type alias Gain = Gain` plus a use
+of `Gain`). (1) `type alias A = A`: the detector of `register_type_aliases` FLAGS the alias (diagnostic `Recursive type
+alias 'A'`) but leaves it registered, and `resolve_type_alias` of any use of `A` returns for no fuel (`fn dsp(x:A){x}` overflows
+the stack). (2) `mod m { type alias A = A }`: the key is `m$A` (10), the target names `A` (0) and the fallback maps `A` to the
+only key ending in `$A`; the detector, which looks names up WITHOUT the fallback, flags nothing — no diagnostic at all — and
+`resolve_type_alias` diverges all the same. -/
+theorem C04_resolve_type_alias_counterexample :
+    flagged [(0, .alias 0)] 2 = [0] ∧ (∀ fuel, resolve id [(0, .alias 0)] fuel (.alias 0) = none) ∧
+    (∀ F, flagged [(10, .alias 0)] (F + 2) = []) ∧
+    (∀ fuel, resolve (fun n => if n = 0 then 10 else n) [(10, .alias 0)] fuel (.alias 0) = none) ∧
+    ¬ (∀ (fb : Nat → Nat) (env : AEnv) (t : ATy), ∃ F r, ∀ fuel, F ≤ fuel → resolve fb env fuel t = some r) := by
+  refine ⟨by decide, resolve_diverges_self, ?_, resolve_diverges_mangled, ?_⟩
+  · intro F
+    simp [flagged, detect_succ, lookup, aliasesOf, findMap]
+  · intro h
+    obtain ⟨F, r, hF⟩ := h id [(0, .alias 0)] (.alias 0)
+    have := hF F (Nat.le_refl _)
+    rw [resolve_diverges_self F] at this
+    cases this
+
+open Mimium.TypeRec in
+/-- the detector itself is total (`env.length + 1` nested calls) and COMPLETE for the graph it looks at: if every name in a
+target is looked up under itself, then after DROPPING the flagged aliases — the repair; /repo only reports them —
+`resolve_type_alias` returns on every type. -/
+theorem C04_alias_detector_complete (fb : Nat → Nat) (env : AEnv) (F : Nat) (hF : env.length + 1 ≤ F)
+    (hfb : ∀ k t, lookup env k = some t → ∀ n ∈ aliasesOf t, fb n = n) :
+    (∀ k, detect env F k [] ≠ none) ∧ AcyclicA fb (prune (flagged env F) env) ∧
+    ∀ (t : ATy) (fuel : Nat), t.size + atotal (prune (flagged env F) env) ≤ fuel →
+      ∃ r, resolve fb (prune (flagged env F) env) fuel t = some r := by
+  have hac : AcyclicA fb (prune (flagged env F) env) := by
+    apply prune_acyclic fb env F (flagged env F) _ hfb
+    intro k a hl hnb
+    have hne := detect_total env F k hF
+    cases hd : detect env F k [] with
+    | none => exact absurd hd hne
+    | some o =>
+      cases o with
+      | none => rfl
+      | some c =>
+        exfalso
+        apply hnb
+        simp only [flagged, List.mem_filter]
+        exact ⟨mem_keys_of_lookup env k (by simp [hl]), by simp [hd]⟩
+  exact ⟨fun k => detect_total env F k hF, hac, fun t fuel hf => resolve_total_bound fb _ hac t fuel hf⟩
+
+open Mimium.TypeRec in
+/-- non-vacuity of `C04_resolve_type_alias_total_partial` and `C04_alias_detector_complete`: `A = (B, B)`, `B = [C]`, `C = C`,
+`D = (float) -> A`: the detector flags all four (a cycle can be reached from each; `A -> B -> C` reports the cycle `[C]`);
+with `C = float` instead nothing is flagged and `D` resolves to `(float) -> ([float], [float])`. -/
+example :
+    flagged [(0, .pair (.alias 1) (.alias 1)), (1, .unary (.alias 2)), (2, .alias 2), (3, .pair .leaf (.alias 0))] 5 = [0, 1, 2, 3] ∧
+    detect [(0, .pair (.alias 1) (.alias 1)), (1, .unary (.alias 2)), (2, .alias 2)] 5 0 [] = some (some [2]) ∧
+    flagged [(0, .pair (.alias 1) (.alias 1)), (1, .unary (.alias 2)), (2, .leaf), (3, .pair .leaf (.alias 0))] 5 = [] ∧
+    resolve id [(0, .pair (.alias 1) (.alias 1)), (1, .unary (.alias 2)), (2, .leaf), (3, .pair .leaf (.alias 0))] 9 (.alias 3)
+      = some (.pair .leaf (.pair (.unary .leaf) (.unary .leaf))) := by decide
+
 open Mimium.Occurs in
 /-- PARTIAL: the range check of tuple projection is right for every index except `idx = len`: below it yields the element,
 above it the `IndexOutOfRange` diagnostic; the out-of-bounds access happens exactly at `idx = len`. -/
@@ -247,6 +493,27 @@ theorem C04_stage_counter_saturates (k : Nat) : nestQuotesSat k 0 = min k 255 :=
       rw [ih (min (s + 1) 255) (by omega)]
       omega
   simpa using gen k 0 (by omega)
+
+open Mimium.TypeRec in
+/-- non-vacuity of the hypotheses `AcyclicA` / `fb n = n` / `env.length + 1 ≤ F`: the second environment of the example above
+is acyclic — by `C04_alias_detector_complete` itself (nothing is flagged, so nothing is dropped) -/
+example : AcyclicA id [(0, .pair (.alias 1) (.alias 1)), (1, .unary (.alias 2)), (2, .leaf), (3, .pair .leaf (.alias 0))] := by
+  have h := (C04_alias_detector_complete id
+    [(0, .pair (.alias 1) (.alias 1)), (1, .unary (.alias 2)), (2, .leaf), (3, .pair .leaf (.alias 0))] 5 (by decide)
+    (fun _ _ _ _ _ => rfl)).2.1
+  have e : flagged [(0, ATy.pair (.alias 1) (.alias 1)), (1, .unary (.alias 2)), (2, .leaf), (3, .pair .leaf (.alias 0))] 5 = [] := by decide
+  rw [e] at h
+  exact h
+
+/-- translator facts, pinned: the statements of /repo/crates that assign `parent = Some(…)` outside test modules are the 12 of
+`typing/unification.rs` (per function: four in the variable-variable arm — two of them behind `parent ≠ None` patterns that a
+root never matches —, one in each of the other two variable arms) and the one of `extend_record_with_field` in `typing.rs`;
+both unification functions take `get_root()` of both arguments and match on the roots. `Model/OccursSeq.lean` models
+exactly these; a new writer breaks this theorem (and with it the coverage claim of `C04_occurs_check_terminates`). -/
+theorem C04_parent_writers_pinned :
+    Mimium.Gen.parentWriteSites =
+      [("lib/mimium-lang/src/compiler/typing.rs", 1), ("lib/mimium-lang/src/compiler/typing/unification.rs", 12)] ∧
+    Mimium.Gen.unifyMatchesOnRoots = 2 := by decide
 
 open Mimium.Occurs in
 /-- PARTIAL: up to 255 nested quote levels the stage counter is exact. -/
